@@ -40,9 +40,17 @@ class CanonDenoter(Denoter):
         if h in ("call", "recurse") and isinstance(ex[1], str) and ex[1] in FLATTENERS:
             arg = (list(ex[2]) + [v for _, v in ex[3]])[0]
             # a verified flattener: the product of what it yields is the product of what it was given
-            return self.d(arg) if FLATTENERS[ex[1]] == "product" else self.d_seq(arg)
+            return self.d(arg) if FLATTENERS[ex[1]] in ("product", "expr") else self.d_seq(arg)
         if h == "call" and ex[1] in ("iter", "list", "tuple") and len(ex[2]) == 1:
             return self.d_seq(ex[2][0])
+        if h == "comp" and len(ex[3]) == 2 and ex[2] == ex[3][1][0] and not ex[3][1][2]:
+            # (f for s in S for f in FLAT(g(s))): the factors of g(s), for every s  --  Π = Π_s g(s)
+            it2 = ex[3][1][1]
+            while it2[0] == "call" and it2[1] in ("iter", "list", "tuple") and len(it2[2]) == 1:
+                it2 = it2[2][0]
+            if it2[0] in ("call", "recurse") and isinstance(it2[1], str) and FLATTENERS.get(it2[1]) in ("expr", "product"):
+                arg = (list(it2[2]) + [v for _, v in it2[3]])[0]
+                return self.d_seq(("comp", ex[1], arg, (ex[3][0],)))
         if h == "comp" and len(ex[3]) == 1:
             pat, it, conds = ex[3][0]
             elt = ex[2]
@@ -146,7 +154,7 @@ def run(model: Model, rep: Report, tier: str) -> None:
     def mk3(model_, prims):
         # canonicalize() and ensure_ordering() are looked into (an explicit ordering is passed through whatever the expression is);
         # the canonicaliser object's own method is the primitive
-        return lambda: Evaluator(model_, primitives=set(prims) | {f"{DSL}._upgrade_ordering", f"{DSL}._sorted_variables", f"{CAN}.Canonicalizer.canonicalize"},
+        return lambda: Evaluator(model_, primitives=set(prims) | {f"{DSL}._upgrade_ordering", f"{CAN}.Canonicalizer.canonicalize"},
                                  prim_methods={"get_variables", "canonicalize"})
     run_table(model, rep, [("R10.3", f"{CAN}.canonical_expr_equal", "canonically_equal", {"left": EX, "right": EX}, (), "same-ordering",
                             "both sides are canonicalised with ONE ordering that covers the variables of both and compared with ==")],
@@ -201,6 +209,46 @@ def _check_sum_branch(rep, canon, cons, e, v, p):
     (rep.refuted if problems else rep.proven)("R10.1", cons, "; ".join(problems), loc(canon, p.line), sample={"returned": short(show(v), 240)})
 
 
+def _expr_level_flattener(fn, prm, paths, sa):
+    """`def flat(e): if not isinstance(e, Product): yield e; return` / `for s in e.expressions: yield from flat(s)`: the factors of ONE expression
+    (itself, unless it is a product).  (ok, why) when the routine has that two-case shape, None when it is something else."""
+    from ..setalg import compare, f_and, f_not
+
+    def unwrap(v):
+        while v[0] == "call" and v[1] in ("iter", "list", "tuple") and len(v[2]) == 1:
+            v = v[2][0]
+        return v
+    is_prod = sa.cond(("isinstance", prm, (f"{DSL}.Product",)))
+    leaf = rec = None
+    for p_ in paths:
+        c_ = f_and(*[sa.cond(x) for x in p_.conds])
+        if compare(c_, is_prod)[0]:
+            rec = p_
+        elif compare(c_, f_not(is_prod))[0]:
+            leaf = p_
+    if leaf is None or rec is None:
+        return None
+    lv = unwrap(leaf.value)
+    if lv[0] == "accum" and lv[1] == "concat" and lv[2] == ("listlit", ()):
+        return None
+    if lv != ("listlit", (prm,)):
+        return (False, "an expression that is not a product must be yielded itself, exactly once")
+    rv = unwrap(rec.value)
+    if not (rv[0] == "accum" and rv[1] == "concat" and unwrap(rv[2]) == ("listlit", ()) and len(rv[4]) == 1):
+        return None
+    pat, it, conds = rv[4][0]
+    if unwrap(it) != ("attr", prm, "expressions") or conds:
+        return (False, "a product must be replaced by the factors of ALL of its own expressions")
+    pl = unwrap(rv[3])
+    if pl[0] in ("recurse", "call") and isinstance(pl[1], str) and (pl[1] == fn.qname or FLATTENERS.get(pl[1]) == "expr"):
+        arg = (list(pl[2]) + [v for _, v in pl[3]])[0]
+        if arg == pat:
+            return (True, "")
+    if pl == ("listlit", (pat,)):
+        return (False, "nested products are not expanded (one level only)")
+    return (False, "a factor of a product is replaced by something that is neither its own factors: " + short(show(pl), 100))
+
+
 def find_flatteners(model: Model, rep: Report) -> set:
     """The module-level routines of the canonicaliser's module that re-yield the factors they are given, expanding nested products: each is
     verified by induction on its own body (a recursive call, or a call of an already verified sibling, on the factors of a Product denotes that
@@ -227,6 +275,14 @@ def find_flatteners(model: Model, rep: Report) -> set:
             except Exception:  # noqa: BLE001
                 pending.remove(fn)
                 continue
+            if len(paths) == 2:
+                k_ = _expr_level_flattener(fn, prm, paths, sa)
+                if k_ is not None:
+                    verdicts[fn.qname] = (k_[0], k_[1], fn)
+                    if k_[0]:
+                        FLATTENERS[fn.qname] = "expr"
+                        pending.remove(fn)
+                    continue
             if len(paths) != 1:
                 continue
             seq = paths[0].value
